@@ -76,6 +76,14 @@ def names_of(cfg):
     return out
 
 
+def tclass(tn):
+    if tn.startswith("Const"):
+        return "const-int" if "Int" in tn else "const-float"
+    if tn.startswith("Real"):
+        return "real"
+    return "int" if tn.startswith("Int") else "float"
+
+
 def death_sig(case, rec):
     o = case["obj"]
     ft = case["faults"][0]["f"] if case["faults"] else "none"
@@ -84,7 +92,7 @@ def death_sig(case, rec):
                 "fault": ft, "what": rec["what"], "stage": rec["stage"]}
     tn = case["types"][rec["inst"]] if rec["inst"] < len(case["types"]) else "?"
     return {"engine": "serial", "mode": "fault" if case["faults"] else "roundtrip", "kind": o["k"], "cls": o["cls"],
-            "storage": o["st"], "format": case["fmt"], "view": view_word(o), "fault": ft, "type": tn,
+            "storage": o["st"], "format": case["fmt"], "view": view_word(o), "fault": ft, "tclass": tclass(tn),
             "what": rec["what"], "stage": rec["stage"]}
 
 
@@ -244,7 +252,7 @@ def run(ctx):
         e = events[bad - 1] if bad and bad <= len(events) else None
         o = (e or {}).get("obj", {})
         ctx.violation({"engine": "serial", "mode": "record", "kind": o.get("k"), "storage": o.get("st"),
-                       "format": (e or {}).get("fmt"), "view": view_word(o), "type": (e or {}).get("type"),
+                       "format": (e or {}).get("fmt"), "view": view_word(o), "tclass": tclass((e or {}).get("type") or "?"),
                        "what": "trace_rejected"},
                       {"replay_mode": "record", "n": t["rec"], "seed": ctx.seed, "sparse_views": sparse_views,
                        "rejected_at": bad, "reason": why, "event": e})
